@@ -1398,6 +1398,8 @@ class FakeSocket:
             return random.sample(list(key.value), count)
         else:
             items = list(key.value)
+            if not items:
+                return []
             return [random.choice(items) for _ in range(-count)]
 
     @command((Key(set), bytes), (bytes,))
